@@ -98,7 +98,7 @@ impl Prop for MlsaSpectrum {
         4 * 42 + 16
     }
     fn cases(&self, tier: Tier) -> u32 {
-        tier.pick(1_500, 40_000)
+        tier.pick(12_000, 150_000)
     }
     fn decode(&self, t: &mut Tape, _: Tier) -> Case {
         let rate = *t.pick(RATES);
